@@ -31,7 +31,7 @@ import (
 //           its start value at any quiescent point
 // ---------------------------------------------------------------------------
 
-var c20ops = []string{"connect", "disconnect", "req-ok", "req-unsupported", "req-invalid", "req-multikey", "req-unfollowable-redirect", "move-group", "start-migration", "node-down", "node-up", "reset-backend", "remove-all-hosts", "add-hosts"}
+var c20ops = []string{"connect", "disconnect", "req-ok", "req-unsupported", "req-invalid", "req-multikey", "req-unfollowable-redirect", "move-group", "start-migration", "node-down", "node-up", "reset-backend", "remove-all-hosts", "add-hosts", "disconnect-with-request-in-flight"}
 
 type c20snap struct {
 	cxTotal, cxDestroy, cxActive uint64
@@ -126,6 +126,17 @@ func c20body(depth int) func() {
 					m0.BadReplies = map[string][]byte{"get": []byte(bad)}
 					do(cur, resp.Encode(resp.Cmd("GET", k0)))
 					m0.BadReplies = nil
+				}
+			case "disconnect-with-request-in-flight":
+				// the client goes away while its request waits for the node's answer; the answer arrives afterwards
+				// and cannot be written back
+				if cur != nil && !m0.Down {
+					m0.Stalled = true
+					cur.Send(resp.Encode(resp.Cmd("MGET", k0, k1)))
+					sched.WaitQuiescent()
+					cur.Close()
+					sched.WaitQuiescent()
+					m0.Stalled = false
 				}
 			case "req-multikey":
 				do(cur, resp.Encode(resp.Cmd("MGET", k0, k1)))
@@ -226,5 +237,75 @@ func init() {
 			d = 5
 		}
 		return sched.Config{Bounds: sched.Bounds{}, MaxSteps: 200000}, c20body(d)
+	}})
+}
+
+
+// ---------------------------------------------------------------------------
+// C20 (S) the service is stopped while a request is arriving: whatever part of Stop the request meets (listener
+// closing, upstream already stopped, session being closed), it is counted once and classified once.
+//
+// threads   a client sending one or two requests (single-key, multi-key) and reading the replies ; Stop
+// bound     all schedules P1 F1 (quick) / P2 F1 (thorough) from the moment both start (set-up on the default schedule)
+// oracle    after Stop returned: active gauge back, total = destroyed, total = success + failure downstream, upstream
+//           and per command
+// ---------------------------------------------------------------------------
+
+func c20stopRacingBody() {
+	vrand.Fair()
+	sched.SetQuiet(true)
+	restore := proc.VerifSetListenFunc(vnet.Listen)
+	sched.OnReset(restore)
+	cl := cluster.New(2, 0, 2)
+	cl.Start()
+	p := vfNewProc(vfSvcConfig(0, nil, 2), cl.Nodes[0].Addr, cl.Nodes[1].Addr)
+	start := c20take(p)
+	p.Start()
+	sched.WaitQuiescent()
+	sched.AdvanceTime(int64(slotsRefMinRate) + 1)
+	sched.WaitQuiescent()
+	k0, k1 := cl.KeyInGroup("k", 0, 0), cl.KeyInGroup("k", 1, 0)
+	vc, err := vnet.DialConn(c09redisAddr)
+	if err != nil {
+		sched.Fail("harness-dial", err.Error())
+		return
+	}
+	vc.Label = "client"
+	c := &vfClient{name: "c", c: vc}
+	if sched.Choose(sched.ClsInput, 2, "warm") == 1 {
+		c.Send(resp.Encode(resp.Cmd("SET", k0, "v")))
+		c.Read()
+	}
+	shape := sched.Choose(sched.ClsInput, 3, "requests")
+	sched.WaitQuiescent()
+	sched.SetQuiet(false)
+	stopped := false
+	sched.GoNamed("client", func() {
+		switch shape {
+		case 0:
+			c.Send(resp.Encode(resp.Cmd("GET", k0)))
+		case 1:
+			c.Send(resp.Encode(resp.Cmd("MGET", k0, k1)))
+		case 2:
+			c.Send(append(resp.Encode(resp.Cmd("GET", k1)), resp.Encode(resp.Cmd("SET", k0, "w"))...))
+		}
+	})
+	sched.GoNamed("stopper", func() { p.Stop(); stopped = true })
+	sched.WaitQuiescent()
+	sched.SetQuiet(true)
+	if !stopped {
+		return // a hanging Stop belongs to C09
+	}
+	c20judge(p, start, []string{fmt.Sprintf("request shape %d", shape), "stop racing the request"}, "stopped while a request arrives")
+	sched.SetOutcome(fmt.Sprint(shape))
+}
+
+func init() {
+	sched.Register(&sched.Scenario{Name: "C20/stop-racing-request", Setup: func(tier string) (sched.Config, func()) {
+		b := sched.Bounds{P: 1, F: 1}
+		if tier == "thorough" {
+			b = sched.Bounds{P: 2, F: 1}
+		}
+		return sched.Config{Bounds: b, Iterative: true, MaxSteps: 200000}, c20stopRacingBody
 	}})
 }
